@@ -56,6 +56,10 @@ def dense(node):
         c = P.as_scalar(node["c"])
         dt = np.result_type(r.dtype, np.complex64) if isinstance(c, complex) else r.dtype
         return Ref(c * r.M, abs(c) * r.B, dt, r.eps)
+    if k == "Symm":  # A + A^T / A + A^H (either order): the *same* operator object appears twice, once through a view
+        r = dense(node["arg"])
+        X = r.M.T if node["form"] == "T" else r.M.conj().T
+        return Ref(r.M + X, r.B + r.B.T, r.dtype, r.eps)
     if k == "Gram":  # A^T A, A^H A, A A^T, A A^H  (the factor appears twice)
         r = dense(node["arg"])
         f = node["form"]
@@ -245,6 +249,36 @@ def close(got, ref, bound, dtype, c=1000.0, eps=None):
     return True, None
 
 
+REBUILDABLE = {"Dense", "Diagonal", "Triangular", "Tridiagonal", "Identity", "ScalarMul", "Permutation", "FFT"}
+
+
+def reseed(node, salt=7919):
+    """The same expression over other data: every leaf whose values are array parameters gets another payload seed.  None when
+    the tree has a leaf whose values live in static state (a closure: matrix-free, Jacobian, ...), which a
+    flatten / unflatten round trip cannot replace."""
+    if not isinstance(node, dict):
+        return node
+    cs = children(node)
+    if node["k"] == "NoDispatch":
+        return None  # (a matrix-free wrapper around the bound product of its argument: static state)
+    if not cs:
+        if node["k"] not in REBUILDABLE or "vals" in node or "diag" in node:
+            return None
+        return dict(node, seed=int(node["seed"]) + salt) if "seed" in node else dict(node)
+    out = {}
+    for k, v in node.items():
+        if k in ("args", "head", "tail"):
+            v = [reseed(c, salt) for c in v]
+            if any(c is None for c in v):
+                return None
+        elif k == "arg":
+            v = reseed(v, salt)
+            if v is None:
+                return None
+        out[k] = v
+    return out
+
+
 def depth(node):
     cs = children(node)
     return 0 if not cs else 1 + max(depth(c) for c in cs)
@@ -272,7 +306,7 @@ def shape_of(node):
     if k in ("Transpose", "Adjoint"):
         s = shape_of(node["arg"])
         return (s[1], s[0])
-    if k in ("NoDispatch", "Annot", "Scaled"):
+    if k in ("NoDispatch", "Annot", "Scaled", "Symm"):
         return shape_of(node["arg"])
     if k == "Gram":
         s = shape_of(node["arg"])
